@@ -435,3 +435,21 @@ Proof.
   cbv zeta. split; [vm_compute; split; discriminate|].
   vm_compute. repeat split; reflexivity.
 Qed.
+
+(* the value-carrying readers against the read PROGRAMS of C16 (IoFault/Model.v x6_read / x4_read run by
+   run_r, the objects of C16's fault theorems and of C06's read = from_slice theorem
+   Equiv.ReadChain.read_eq_slice_ipv6_exts): on every reader state whose source delivers at least one
+   byte per call -- any data, any LimitedReader state, failing or not -- the program run is the run of
+   read6 / read4 with the value erased to the program's summary [next number; mask of filled positions]:
+   same reader calls, same final reader state, same verdict *)
+From EP Require Import ExtChain.ReadErase.
+Theorem C12_read_refines_c16 : forall lim first st, 1 <= src_chunk (rs_src st) ->
+  run_r (x6_read lim first) st = (qmap summary6 (fst (read6 lim first st)), snd (read6 lim first st)) /\
+  run_r (x4_read lim first) st = (qmap summary4 (fst (read4 lim first st)), snd (read4 lim first st)).
+Proof. exact (fun lim first st H => conj (read6_erase lim first st H) (read4_erase lim first st H)). Qed.
+Print Assumptions C12_read_refines_c16.
+
+Example C12_ex_erase :
+  run_r (x6_read true 0) (mk_st ex_wire 3 0 (MLim (lr_new 60 LS_IPV6_PAYLOAD 40 L_IPV6H)))
+  = (QOk [43; 63], snd (read6 true 0 (mk_st ex_wire 3 0 (MLim (lr_new 60 LS_IPV6_PAYLOAD 40 L_IPV6H))))).
+Proof. vm_compute. reflexivity. Qed.
